@@ -94,6 +94,8 @@ class ValueGen:
                                r.randint(1, 28), r.randint(0, 23), r.randint(0, 59), r.randint(0, 59))
         if '%H' not in fmt:
             dt = dt.replace(hour=0, minute=0, second=0)
+        if '%z' in fmt:
+            dt = dt.replace(tzinfo=datetime.timezone.utc)
         return dt
 
     def prim_value(self, t):
